@@ -33,7 +33,7 @@
    decrypts what every other member sends.
    Statements only. *)
 From Coq Require Import NArith List Bool.
-From MlsV Require Import Res TreeMathGen Tree Kem Priv PrivProofs Decap DecapProofs KemGen KemGenProofs TreeProofs TreeWF5 PrivComplete Agreement KemSecrets KemSecretsProofs Filter FilterProofs Pending PendingProofs NodeVecGen NodeVecGenProofs CommitStep.
+From MlsV Require Import Res TreeMathGen Tree Kem Priv PrivProofs Decap DecapProofs KemGen KemGenProofs TreeProofs TreeWF5 PrivComplete Agreement KemSecrets KemSecretsProofs Filter FilterProofs Pending PendingProofs NodeVecGen NodeVecGenProofs CommitStep Hkdf KeyScheduleCode KeySchedGen EpochAgreement.
 Local Open Scope N_scope.
 Import ListNotations.
 
@@ -223,3 +223,62 @@ Print Assumptions C01_receiver_level_is_unfiltered_in_the_committers_list.
 Print Assumptions C01_translated_node_vector_operations_are_the_model.
 Print Assumptions C01_every_member_of_every_reachable_state_derives_the_commit_secret.
 Print Assumptions C01_every_joiner_derives_the_commit_secret.
+
+(* The epoch layer on top of the group model (Proofs/EpochAgreement.v): a state is what every member
+   holds for the current epoch; a step is one accepted commit - with an update path (each receiver
+   enters the committer's chain of path secrets at its own non-filtered level), without one (commit
+   secret = zeros) or an external commit (init secret = HPKE export under the old epoch's external
+   secret) - in which every member runs the key schedule AS TRANSLATED FROM THE CODE
+   (gen_from_key_schedule; members added by the commit run gen_from_joiner on the committer's joiner
+   secret).  In every state reachable from a new group any two members hold the same key schedule,
+   confirmation key and epoch secrets. *)
+Theorem C01_every_member_of_every_reachable_epoch_holds_the_same_epoch_secrets :
+  forall (H : hash_alg) (derive : list N -> list N) (ext_init : list N -> list N -> list N) d0 ms a b,
+    ereachable H derive ext_init [d0] ms -> In a ms -> In b ms ->
+    d_ks a = d_ks b /\ d_confirm a = d_confirm b /\ d_epoch a = d_epoch b.
+Proof. exact every_reachable_epoch_is_shared. Qed.
+Print Assumptions C01_every_member_of_every_reachable_epoch_holds_the_same_epoch_secrets.
+
+(* a member added through a Welcome reaches the epoch of the members: from_joiner on the joiner secret
+   that from_key_schedule produced, same context, same PSK secret (two functions of the code that must
+   stay in step) *)
+Theorem C01_joiner_key_schedule_reaches_the_members_epoch :
+  forall (H : hash_alg) init cs ctx psk,
+    let d := gen_from_key_schedule H init cs ctx psk in
+    let j := gen_from_joiner H (d_joiner d) ctx psk in
+    d_ks j = d_ks d /\ d_confirm j = d_confirm d /\ d_epoch j = d_epoch d.
+Proof. exact joiner_reaches_the_members_epoch. Qed.
+Print Assumptions C01_joiner_key_schedule_reaches_the_members_epoch.
+
+(* what the property lists follows from a shared epoch: epoch authenticator, exported secrets for any
+   label / context / length, membership key, confirmation key, encryption / sender-data / resumption
+   secrets, the next init secret and the external secret *)
+Theorem C01_members_of_one_epoch_export_the_same_secrets :
+  forall (H : hash_alg) a b,
+    d_ks a = d_ks b /\ d_confirm a = d_confirm b /\ d_epoch a = d_epoch b ->
+    ks_authentication (d_ks a) = ks_authentication (d_ks b) /\
+    (forall label context len,
+        gen_export_secret H (ks_exporter (d_ks a)) label context len = gen_export_secret H (ks_exporter (d_ks b)) label context len) /\
+    ks_membership (d_ks a) = ks_membership (d_ks b) /\
+    d_confirm a = d_confirm b /\
+    es_encryption (d_epoch a) = es_encryption (d_epoch b) /\
+    es_sender_data (d_epoch a) = es_sender_data (d_epoch b) /\
+    es_resumption (d_epoch a) = es_resumption (d_epoch b) /\
+    ks_init (d_ks a) = ks_init (d_ks b) /\ ks_external (d_ks a) = ks_external (d_ks b).
+Proof. exact shared_epoch_gives_shared_outputs. Qed.
+Print Assumptions C01_members_of_one_epoch_export_the_same_secrets.
+
+(* ... and every member derives the same secret for every leaf of the secret tree (the code-shaped
+   on-demand tree, whatever each member consumed before), hence the same message keys per sender and
+   generation: each member can decrypt what any other member encrypts in that epoch *)
+Theorem C01_members_of_one_epoch_derive_the_same_leaf_secrets :
+  forall (H : hash_alg) a b,
+    N.of_nat (h_len H) < 65536 ->
+    d_ks a = d_ks b /\ d_confirm a = d_confirm b /\ d_epoch a = d_epoch b ->
+    forall d l ma oa ma' mb ob mb' sa sb, d <= 30 -> l < 2 ^ d ->
+      KeyScheduleProofs.good H d (es_encryption (d_epoch a)) ma -> KeyScheduleProofs.good H d (es_encryption (d_epoch b)) mb ->
+      take_leaf H ma (TreeMathProofs.node 0 l) (2 ^ d) = Ok (oa, ma') ->
+      take_leaf H mb (TreeMathProofs.node 0 l) (2 ^ d) = Ok (ob, mb') ->
+      oa = Some (TSecret sa) -> ob = Some (TSecret sb) -> sa = sb.
+Proof. exact shared_epoch_gives_shared_leaf_secrets. Qed.
+Print Assumptions C01_members_of_one_epoch_derive_the_same_leaf_secrets.
